@@ -222,8 +222,11 @@ class PeakShaving(Strategy):
             sim_vehicle.schedule -= min(timesteps[0]["cur_power"], 0)
             if sim_vehicle.schedule > 0:
                 cs_id = sim_vehicle.connected_charging_station
+                # scheduled power plus surplus must still respect station and vehicle limits
+                power = util.clamp_power(
+                    sim_vehicle.schedule, sim_vehicle, self.world_state.charging_stations[cs_id])
                 avg_power = self.world_state.vehicles[v_info["vid"]].battery.load(
-                    self.interval, target_power=sim_vehicle.schedule)["avg_power"]
+                    self.interval, target_power=power)["avg_power"]
                 charging_stations[cs_id] = gc.add_load(cs_id, avg_power)
 
         # use batteries to balance power levels
